@@ -965,6 +965,9 @@ func init() {
 		"(*log/slog.Logger).Enabled": func(fr *frame, args []value) value { return false },
 		"os.Getenv":  func(fr *frame, args []value) value { return "" },
 		"os.Environ": func(fr *frame, args []value) value { return []value(nil) },
+		// temporary directories are only handed to intercepted clone models
+		"os.MkdirTemp": func(fr *frame, args []value) value { return tuple{"/zz-tmp/dir", iface{}} },
+		"os.RemoveAll": func(fr *frame, args []value) value { return iface{} },
 
 		"internal/bytealg.IndexByteString": extBytealgIndexByteString,
 		"internal/bytealg.IndexByte":       extBytealgIndexByte,
